@@ -41,6 +41,7 @@ MODELS = [
     "AD:extended_tube", "AD:blatz_ko", "AD:lopez_pamies", "AD:storakers", "AD:anssari_benam_bucchi", "AD:alexander", "AD:miehe_goektepe_lulei",
     "ThreeField", "NearlyIncompressible", "NearlyIncompressibleAD", "Composite",
     "MAD:total_lagrange", "MAD:updated_lagrange", "MAD:morph", "LinearElasticOrthotropic",
+    "LinearElasticTensorNotation", "LinearElasticPlaneStress", "LinearElasticPlaneStrain", "MS:linear_elastic",
 ]
 JAX_MODELS = ["JAX:neo_hooke", "JAX:mooney_rivlin", "JAX:yeoh", "JAX:third_order_deformation", "JAX:blatz_ko", "JAX:storakers", "JAX:extended_tube", "JAX:miehe_goektepe_lulei"]
 HISTORY = ("OgdenRoxburgh", "OgdenRoxburghAD", "Plastic", "Visco", "MAD:morph")
@@ -59,7 +60,9 @@ def draw_model(r, name):
         return {"name": name, "p": {"mu": mu, "lmbda": bulk}}
     if name == "Volumetric":
         return {"name": name, "p": {"bulk": bulk}}
-    if name in ("LinearElastic", "LinearElasticLargeStrain"):
+    if name == "MS:linear_elastic":
+        return {"name": name, "p": {"lmbda": round(2 * mu, 4), "mu": mu}}
+    if name in ("LinearElastic", "LinearElasticLargeStrain", "LinearElasticTensorNotation", "LinearElasticPlaneStress", "LinearElasticPlaneStrain"):
         return {"name": name, "p": {"E": rf(r, 0.5, 10), "nu": rf(r, 0.0, 0.45)}}
     if name in ("OgdenRoxburgh", "OgdenRoxburghAD"):
         return {"name": name, "p": {"mu": mu, "r": rf(r, 1.5, 4), "m": rf(r, 0.5, 2), "beta": rf(r, 0, 0.3), "bulk": bulk}}
@@ -161,6 +164,14 @@ def build(spec):
         return fem.Volumetric(bulk=p["bulk"], parallel=bool(spec.get("parallel")))
     if name == "LinearElasticOrthotropic":
         return fem.LinearElasticOrthotropic(E=p["E"], nu=p["nu"], G=p["G"])
+    if name == "LinearElasticTensorNotation":
+        return fem.constitution.LinearElasticTensorNotation(E=p["E"], nu=p["nu"], parallel=bool(spec.get("parallel")))
+    if name == "LinearElasticPlaneStress":
+        return fem.LinearElasticPlaneStress(E=p["E"], nu=p["nu"])
+    if name == "LinearElasticPlaneStrain":
+        return fem.constitution.LinearElasticPlaneStrain(E=p["E"], nu=p["nu"])
+    if name == "MS:linear_elastic":
+        return fem.MaterialStrain(material=fem.linear_elastic, λ=p["lmbda"], μ=p["mu"])
     if name == "MAD:morph":
         return fem.MaterialAD(fem.morph, p=p["p"], nstatevars=13) & fem.Volumetric(bulk=p["bulk"])
     if name in ("MAD:total_lagrange", "MAD:updated_lagrange"):
@@ -381,7 +392,8 @@ def run_point(doc, log):
     pr = Probe(umat, spec, model, log, rng)
     q, c = doc["batch"]
     Hrng = np.random.default_rng(doc["H_seed"])
-    H = Hrng.normal(size=(3, 3, q, c))
+    nd = umat.x[0].shape[0] if hasattr(umat, "x") else (2 if model in ("LinearElasticPlaneStress", "LinearElasticPlaneStrain") else 3)
+    H = Hrng.normal(size=(nd, nd, q, c))
     H /= np.abs(H).max()
     nsv = umat.x[-1].shape[0] if hasattr(umat, "x") else 0
     sv = np.zeros((nsv, q, c))
@@ -390,7 +402,7 @@ def run_point(doc, log):
     sig = []
     rejected_then_commit = False
     had_reject = False
-    eye = np.eye(3).reshape(3, 3, 1, 1)
+    eye = np.eye(nd).reshape(nd, nd, 1, 1)
     for k, op in enumerate(doc["ops"]):
         t = op["t"] * op.get("excursion", 1.0)
         F = eye + amp * t * H
@@ -398,7 +410,7 @@ def run_point(doc, log):
         if J.min() < 0.3:
             log.count("op-skipped-domain")
             continue
-        if model in ("LinearElastic",):
+        if model in ("LinearElastic", "LinearElasticPlaneStress", "LinearElasticPlaneStrain", "LinearElasticOrthotropic", "LinearElasticTensorNotation"):
             x = [F, sv]
         elif mixed:
             pp = 0.1 * Hrng.normal(size=(q, c)) * t
